@@ -152,6 +152,9 @@ fn gen_ctor(rng: &mut Rng) -> Value {
     let p4 = (r + rng.range(1, 511)) % 512;
     let probe = json!({"idx": [p4, rng.below(512), rng.below(512), rng.below(512)], "depth": rng.range(0, 4), "frame": gen_frame(rng)});
     let mut s = json!({"op": "ctor", "idx": idx, "mapped": mapped, "slot": slot, "cr3": cr3, "probe": probe});
+    if rng.chance(50) {
+        s["fill_slot"] = json!(true);
+    }
     if rng.chance(20) {
         // the address space is switched (from this root) in the same function, right before the
         // constructor is called
@@ -451,9 +454,12 @@ pub fn run(rp: &Replay, st: &mut Stats) -> Option<Violation> {
                     if recursive {
                         maps.put(addr, r, slot);
                     } else {
-                        // whichever slot a sloppy check looks at, it finds an active-looking entry
+                        // whichever slot a sloppy check looks at, it finds an active-looking entry —
+                        // or (`fill_slot`) the step's slot value, which may be empty or not present:
+                        // the verdict for a non-recursive address does not depend on table contents
+                        let fill = if s["fill_slot"].as_bool().unwrap_or(false) { slot } else { (cr3 & ADDR) | PRESENT | 2 };
                         for k in 0..512 {
-                            maps.put(addr, k, (cr3 & ADDR) | PRESENT | 2);
+                            maps.put(addr, k, fill);
                         }
                     }
                     if expected == Ctor::Ok && pidx[0] != r {
